@@ -1651,7 +1651,7 @@ theorem runTasks_cons_safe (P : List Live) (ns : List String) (s : St) (t : Task
       split
       · exact safe_of_eq _ _ hs3 rfl rfl
       · rename_i hc
-        exact h2 he (by simpa [St.emit] using hw) (by simpa [St.emit] using hc)
+        exact h2 he (by simpa [St.emit] using hc) (by simpa [St.emit] using hw)
 
 /-- what holds between tasks: no orphan so far, the run invariant, and the stored inventory lists the whole apply set -/
 structure Ph (x : Ctx) (s : St) (RA RP : List Id) : Prop where
